@@ -493,7 +493,13 @@ pub fn inject_site<'a>(module: &mut Module<'a>, func: u32, api: Api, site: &Site
                 }
                 fm.finish_instr();
             } else if api == Api::Modifier || is_empty_mode {
-                set_mode_at(&mut fm, site.mode, loc);
+                // a fresh modifier stands at the function's final `end` in mode before: half of the
+                // before-sites on that instruction use this default instead of selecting it
+                let default_loc =
+                    site.mode == Mode::Before && site.tag.is_none() && site.instr as usize + 1 == fm.body.instructions.len() && site.magic % 2 == 0 && !ops.is_empty();
+                if !default_loc {
+                    set_mode_at(&mut fm, site.mode, loc);
+                }
                 for op in ops {
                     fm.inject(op);
                 }
